@@ -154,7 +154,7 @@ class IrToPythonCompiler:
             (ir.u64, "Q", 8),
             (ir.i32, "i", 4),
             (ir.u32, "I", 4),
-            (ir.ptr, "i", 4),
+            (ir.ptr, "I", 4),
             (ir.i16, "h", 2),
             (ir.u16, "H", 2),
             (ir.i8, "b", 1),
@@ -472,7 +472,10 @@ class IrToPythonCompiler:
                 + f"{ins.ty.bits}, {ins.ty.signed})"
             )
         elif ins.ty is ir.ptr:
-            self.emit(f"{ins.name} = int(round({ins.src.name}))")
+            self.emit(
+                f"{ins.name} = rt.correct(int(round({ins.src.name})), "
+                + "32, False)"
+            )
         elif ins.ty in [ir.f32, ir.f64]:
             self.emit(f"{ins.name} = float({ins.src.name})")
         else:  # pragma: no cover
@@ -505,6 +508,9 @@ class IrToPythonCompiler:
             bits = ins.ty.bits
             signed = ins.ty.signed
             self.emit(f"{ins.name} = rt.correct({ins.name}, {bits}, {signed})")
+        elif ins.ty is ir.ptr:
+            # Pointers are 32 bits unsigned values (see load_ptr / store_ptr)
+            self.emit(f"{ins.name} = rt.correct({ins.name}, 32, False)")
 
     def gen_load(self, ins):
         address = self.fetch_value(ins.address)
